@@ -215,7 +215,7 @@ pub fn property() -> Property {
         subchecks: vec![SubCheck {
             name: "conversion-and-dispatch",
             rule: "G-MAP of all four native modes (1/8 of osu maps pre-converted) x uniform target mode x mods incl. key mods/Random/HO/IN/MR in all representations x G-DIFF x score spec. Oracle: convert / convert_ref / convert_mut give == maps or the same error variant (failed convert_mut leaves the map unchanged); own mode => identity and Cow::Borrowed; Ok iff target==mode or un-converted osu; result has mode==target and is_convert; calculate_for_mode, strains_for_mode, GradualDifficulty::new_with_mode (drained), GradualPerformance::new_with_mode (stepped), Performance::try_mode / mode_or_ignore / <Mode>Performance::new(&src) all same-value-equal to the same call on the explicitly converted map; on impossible conversions every entry point refuses and try_mode returns the unchanged calculator. Non-trivial: osu source with >=3 objects incl. a slider and target != osu, or an error path from a non-osu/converted source.",
-            quick: 10_000,
+            quick: 40_000,
             thorough: 150_000,
             tape_len: 1500,
             f: case,
